@@ -70,7 +70,10 @@ def panicFreeRules : List Rule :=
     possibleFragmentSpreads, providedRequiredArguments, scalarLeafs, uniqueArgumentNames,
     uniqueDirectivesPerLocation, uniqueFragmentNames, uniqueInputFieldNames, uniqueOperationNames,
     uniqueVariableNames, variablesAreInputTypes, variablesInAllowedPosition,
-    fieldsOnCorrectTypeWithoutSuggestions, knownArgumentNamesWithoutSuggestions, knownTypeNamesWithoutSuggestions ]
+    fieldsOnCorrectTypeWithoutSuggestions, knownArgumentNamesWithoutSuggestions, knownTypeNamesWithoutSuggestions,
+    -- since the repairs of R2a/R2b (nil `VariableDefinition`), of `Definition.Fields[0]` and of R15
+    -- (`Value.Value` on out-of-range literals) the body of ValuesOfCorrectType has no panic site left
+    valuesOfCorrectType, valuesOfCorrectTypeWithoutSuggestions ]
 
 theorem knownDirectives_neverPanics : knownDirectives.NeverPanics := by
   intro s d st e m h
@@ -99,7 +102,7 @@ theorem uniqueOperationNames_neverPanics : uniqueOperationNames.NeverPanics := b
 theorem panicFreeRules_neverPanic : ∀ r ∈ panicFreeRules, r.NeverPanics := by
   intro r hr
   simp only [panicFreeRules, List.mem_cons, List.mem_nil_iff, or_false] at hr
-  rcases hr with h | h | h | h | h | h | h | h | h | h | h | h | h | h | h | h | h | h | h | h | h | h | h | h <;> subst h
+  rcases hr with h | h | h | h | h | h | h | h | h | h | h | h | h | h | h | h | h | h | h | h | h | h | h | h | h | h <;> subst h
   all_goals first
     | exact neverPanics_stateless _ _
     | exact knownDirectives_neverPanics
